@@ -81,7 +81,7 @@ def install_tally():
 
 class State:
     __slots__ = ('pick', 'file', 'evald', 'resumes', 'toggles', 'terminal', 'path', 'skey', 'fkey',
-                 'ekey', 'key', 'depth', 'target', 'toggled', 'nsched', 'exp_points', 'thist', 'thist_ck')
+                 'ekey', 'key', 'depth', 'target', 'toggled', 'nsched', 'exp_points', 'thist', 'thist_ck', 'explored', 'n_like', 'n_eff')
 
     def sampler(self):
         return pickle.loads(zlib.decompress(self.pick))
@@ -134,6 +134,10 @@ class Engine:
                 parent_explored=False):
         st = State()
         st.skey = core.sampler_digest(sampler)
+        st.explored = bool(sampler.explored)
+        st.n_like = int(sampler.n_like)
+        with np.errstate(all='ignore'):
+            st.n_eff = float(sampler.n_eff) if len(sampler.bounds) else 0.0
         st.pick = zlib.compress(pickle.dumps(sampler, protocol=4), 1)
         st.file = self._get_file()
         st.fkey = core.h5_digest_bytes(st.file) if (self.file_key and st.file is not None) else \
